@@ -3,7 +3,10 @@
 
 use std::time::Instant;
 
-use dnsmon::mon::{install_panic_hook, Ctx, Slot};
+use dnsmon::mon::{install_panic_hook, CountingAlloc, Ctx, Slot};
+
+#[global_allocator]
+static GLOBAL: CountingAlloc = CountingAlloc;
 
 fn main() {
     let args: Vec<String> = std::env::args().collect();
